@@ -95,20 +95,110 @@ def run(ctx):
   siblings(ctx)
 
 
+
+def _while_loops(m, outer):
+  """[(enclosing FuncInfo, cond FuncInfo, body FuncInfo)] for every lax.while_loop(cond, body, init) call inside `outer`
+  whose first two arguments name functions nested in `outer` (found by call shape, not by function name)."""
+  import ast as _ast
+  from ..lib import module_aliases
+  al = module_aliases(outer.module.tree)
+
+  def all_children(fi):
+    out = {}
+    for c in fi.children.values():
+      out[c.node.name] = c
+      out.update({k: v for k, v in all_children(c).items() if k not in out})
+    return out
+  kids = all_children(outer)
+
+  def innermost(fi, node):
+    for c in fi.children.values():
+      if c.node.lineno <= node.lineno <= getattr(c.node, 'end_lineno', c.node.lineno):
+        return innermost(c, node)
+    return fi
+  found = []
+  for n in _ast.walk(outer.node):
+    if isinstance(n, _ast.Call) and isinstance(n.func, _ast.Attribute) and n.func.attr == 'while_loop' and len(n.args) >= 2:
+      root = n.func.value
+      while isinstance(root, _ast.Attribute):
+        root = root.value
+      if not (isinstance(root, _ast.Name) and al.get(root.id, '').split('.')[0] == 'jax'):
+        continue
+      c_, b_ = n.args[0], n.args[1]
+      if isinstance(c_, _ast.Name) and isinstance(b_, _ast.Name) and c_.id in kids and b_.id in kids:
+        found.append((innermost(outer, n), kids[c_.id], kids[b_.id]))
+  return found
+
+
+def _free_locals(outer, fi):
+  """names read by nested function `fi` that are plain local variables of an enclosing function of `outer`'s family
+  (not parameters of `outer`, not module-level names, not nested function names)."""
+  import ast as _ast
+  params = {a.arg for a in outer.node.args.args + outer.node.args.kwonlyargs}
+  own = {a.arg for a in fi.node.args.args + fi.node.args.kwonlyargs}
+  assigned = {n.id for n in _ast.walk(fi.node) if isinstance(n, _ast.Name) and isinstance(n.ctx, _ast.Store)}
+  loads = []
+  for n in _ast.walk(fi.node):
+    if isinstance(n, _ast.Name) and isinstance(n.ctx, _ast.Load) and n.id not in loads:
+      loads.append(n.id)
+  outer_assigned = {n.id for n in _ast.walk(outer.node) if isinstance(n, _ast.Name) and isinstance(n.ctx, _ast.Store)}
+  nested = set()
+
+  def rec(f):
+    for c in f.children.values():
+      nested.add(c.node.name)
+      rec(c)
+  rec(outer)
+  return [x for x in loads if x in outer_assigned and x not in params and x not in own and x not in assigned and x not in nested]
+
+
+def _role_values(ev, outer, fi, roles):
+  """Resolve role names to the closure values nested function `fi` reads.  `roles` maps role -> predicate(value term);
+  parameters of `outer` are looked up under their own names."""
+  from ..spec import closure_values as _cv
+  names = _free_locals(outer, fi)
+  vals = _cv(ev, fi, names, required=False)
+  out, used = {}, set()
+  for role, pred in roles.items():
+    hits = [n for n, v in vals.items() if n not in used and pred(v)]
+    if len(hits) != 1:
+      raise AnalysisError(f'{fi.short}: cannot identify the closure value playing the role `{role}` (candidates {hits} among {sorted(vals)})')
+    out[role] = vals[hits[0]]
+    used.add(hits[0])
+  return out
+
+
+def _has_eye(v):
+  return any(is_ext_call(x, 'jax.numpy.eye') for x in walk(v))
+
+
+def _is_float_const(v):
+  # the value may be bound on one arm of an undecided branch only (the other arm never reaches the reader)
+  while v.op == 'ite' and any(a.op in ('unbound', 'unknown') for a in v.args[1:]):
+    v = [a for a in v.args[1:] if a.op not in ('unbound', 'unknown')][0]
+  return is_const(v) and isinstance(cval(v), float)
+
 # -------------------------------------------------------------------- Newton
 def newton(ctx):
   m = ctx.model
   ev = evaluator(m, opaque={'mat_power', 'power_iteration'})
   cmpr = Comparer()
   outer = m.func(MOD, 'matrix_inverse_pth_root')
-  body = m.func(MOD, 'matrix_inverse_pth_root._iter_body')
-  condf = m.func(MOD, 'matrix_inverse_pth_root._iter_condition')
+  loops = _while_loops(m, outer)
+  inner = [l for l in loops if l[0] is not outer]
+  outerl = [l for l in loops if l[0] is outer]
+  if len(inner) != 1 or len(outerl) != 1 or inner[0][0] is not outerl[0][2]:
+    raise AnalysisError(f'matrix_inverse_pth_root: expected a retry while_loop whose body runs the Newton while_loop; found {[(a.short, b.short, c.short) for a, b, c in loops]}')
+  _, condf, body = inner[0]
+  _, ocond, ob = outerl[0]
   ctx.analysed(outer, body, condf)
 
   st_names = ['i', 'M', 'H', 'oldH', 'err', 'ratio']
   st = tup(*[sym('spec', x) for x in st_names])
-  vals = closure_values(ev, body, ['identity', 'alpha', 'p', 'precision', 'num_iters',
-                                   'error_tolerance', 'max_error_ratio'])
+  pvals = closure_values(ev, body, ['p', 'precision', 'num_iters', 'error_tolerance'])
+  vals = dict(pvals)
+  vals.update(_role_values(ev, outer, body, {'identity': _has_eye, 'alpha': lambda v: not _has_eye(v)}))
+  vals.update(_role_values(ev, outer, condf, {'max_error_ratio': _is_float_const}))
   env = {x: sym('spec', x) for x in st_names}
 
   def check(rule, fi, construct, got, spec_src, extra_env=None, what=''):
@@ -153,11 +243,12 @@ def newton(ctx):
          sample=f'max_error_ratio = {show(mer)}')
 
   # outer retry body
-  ob = m.func(MOD, 'matrix_inverse_pth_root._outer_body_fn')
   ctx.analysed(ob)
   ev2 = evaluator(m, opaque={'mat_power', 'power_iteration'})
-  vals2 = closure_values(ev2, ob, ['identity', 'p', 'matrix', 'ridge_epsilon', 'max_error_ratio',
-                                   'retry_loop_error_threshold'])
+  vals2 = closure_values(ev2, ob, ['p', 'matrix', 'ridge_epsilon'])
+  mer_v = vals['max_error_ratio']
+  vals2.update(_role_values(ev2, outer, ob, {'identity': _has_eye, 'max_error_ratio': lambda v: v is mer_v,
+                                             'retry_loop_error_threshold': lambda v: _is_float_const(v) and v is not mer_v}))
   ost = tup(*[sym('spec', x) for x in ['oi', 'o1', 'o2', 'o3', 'o4', 'o5']])
   r = ev2.run(ob, args={'state': ost})
   if r.op != 'tuple' or len(r.args) != 6:
@@ -288,8 +379,10 @@ def mat_power(ctx):
 def power_iter(ctx):
   m = ctx.model
   fi = m.func(MOD, 'power_iteration')
-  body = m.func(MOD, 'power_iteration._iter_body')
-  condf = m.func(MOD, 'power_iteration._iter_condition')
+  pl = _while_loops(m, fi)
+  if len(pl) != 1:
+    raise AnalysisError(f'power_iteration: expected one while_loop over nested functions, found {len(pl)}')
+  _, condf, body = pl[0]
   ctx.analysed(fi, body, condf)
   cmpr = Comparer()
   for pad in (True, False):
@@ -491,11 +584,13 @@ def siblings(ctx):
                    decide=_decider(padding=True, rel=True, **facts))
     ev.run(fi)
     sc = ev.last_scope
-    mat = sc.vars.get('matrix')
-    ident = sc.vars.get('identity')
+    mat = sc.vars.get('matrix')          # a parameter (re-bound to its masked cast)
+    # the identity used for convergence checks / ridge: the smallest local value built from jnp.eye of the matrix size
+    eyes = sorted((v_ for v_ in sc.vars.values() if _has_eye(v_) and not any(x.op in ('while', 'call') and fn_name(x) for x in walk(v_))),
+                  key=lambda v_: sum(1 for _ in walk(v_)))
+    ident = eyes[0] if eyes else None
     if mat is None or ident is None:
-      # fall back: any local that holds eye(...) / the casted parameter
-      raise AnalysisError(f'{q}: locals `matrix` / `identity` not found for the mask prologue check')
+      raise AnalysisError(f'{q}: masked matrix / identity not found for the mask prologue check')
     P = sym('param', fi.short, 'matrix')
     cmpr = Comparer()
     env = {'matrix': P, 'padding_start': sym('param', fi.short, 'padding_start')}
